@@ -1,7 +1,9 @@
 """C17 — errors encode faithfully; parameters partitioned by declared safety."""
+import re
 import json, os
 from ..facts import ty_adt, tystr, walk_ty, place_local, place_proj, op_place
 from ..cfg import CFG, Tracer, thaw
+from . import c06
 from .. import dt, core, extract
 
 STATUS = {"PermissionDenied": 403, "InvalidArgument": 400, "NotFound": 404, "Conflict": 409, "RequestEntityTooLarge": 413,
@@ -125,6 +127,39 @@ def promoted_str_array(body, op):
     return None
 
 
+def membership_test(crate, b, atom):
+    """(collection operand, key operand, negated) if the switch atom is a membership test `key in collection`:
+    contains / contains_key; binary_search(..).is_ok()/is_err(); get(..).is_some()/is_none(); iter().any(|a| a == key)."""
+    if atom[0] != "call":
+        return None
+    t = atom[1]
+    n = t["call"]["name"]
+    if n in ("contains", "contains_key") and len(t["args"]) == 2:
+        return t["args"][0], t["args"][1], False
+    if n in ("is_ok", "is_err", "is_some", "is_none") and t["args"]:
+        r = dt.resolve_copy(b, t["args"][0])
+        seen = 0
+        while r[0] == "def" and r[1][1] != "T" and "ref" in r[1][2]["r"] and seen < 4:
+            seen += 1
+            pl = r[1][2]["r"]["ref"]
+            r = dt.resolve_copy(b, {"cp": pl if isinstance(pl, int) else pl["l"]})
+        if r[0] == "def" and r[1][1] == "T" and r[1][2]["call"]["name"] in ("binary_search", "get", "get_key_value") and len(r[1][2]["args"]) == 2:
+            inner = r[1][2]
+            return inner["args"][0], inner["args"][1], n in ("is_err", "is_none")
+        return None
+    if n == "any" and len(t["args"]) == 2:
+        srcs = [x for x in Tracer(b).sources(t["args"][1]) if x[0] == "agg"]
+        if len(srcs) == 1:
+            st = b.blocks[srcs[0][1]]["s"][srcs[0][2]]
+            clo = crate.body(st["r"].get("id")) if st["r"].get("agg") == "closure" else None
+            if clo is not None and len(st["r"]["ops"]) == 1:
+                eqs = [x for _, x in clo.calls() if x["call"]["def"] in ("core::cmp::PartialEq::eq",)]
+                others = [x for _, x in clo.calls() if x["call"]["def"] not in ("core::cmp::PartialEq::eq", "core::ops::deref::Deref::deref")]
+                if len(eqs) == 1 and not others and place_local(eqs[0]["dest"]) == 0:
+                    return t["args"][0], st["r"]["ops"][0], False
+    return None
+
+
 def run(ctx):
     ctx.explanation = EXPLANATION
     ctx.assumptions = ["serde's Visitor defaults reject unvisited kinds and widen narrower integers/floats to i64/u64/f64 (documented)",
@@ -178,14 +213,17 @@ def run(ctx):
             contains_t = None
             for sbb, allowed, allv in dt.edge_conditions(cfg, bb):
                 atom = dt.switch_atom(b, sbb)
-                if atom[0] == "call" and atom[1]["call"]["name"] in ("contains", "contains_key", "binary_search"):
+                mt = membership_test(ce, b, atom)
+                if mt is not None:
                     pol = dt.bool_polarity(allowed)
+                    if mt[2]:
+                        pol = None if pol is None else not pol
                     sw_bb = sbb
-                    contains_t = atom[1]
+                    contains_t = {"args": [mt[0], mt[1]]}
             ok = len(which) == 1 and pol is not None and contains_t is not None
             if ok:
                 # membership is tested on the safe_args parameter with the inserted key
-                recv = tr.root_locals(contains_t["args"][0])
+                recv = Tracer(b, through_calls=True).root_locals(contains_t["args"][0])
                 key_same = Tracer(b, through_agg=True).root_locals(contains_t["args"][1]) & Tracer(b, through_agg=True).root_locals(t["args"][1]) or \
                     {s for s in Tracer(b, through_agg=True, through_calls=True).sources(contains_t["args"][1]) if s[0] != "const"} & {s for s in Tracer(b, through_agg=True, through_calls=True).sources(t["args"][1]) if s[0] != "const"}
                 is_param = all(1 <= r <= b.argc and "str" in tystr(b.local_ty(r)) for r in recv) and recv
@@ -305,6 +343,79 @@ def run(ctx):
                and any(t["call"]["name"] in ("sort", "sort_unstable", "sort_by", "sort_by_key") or "BTreeSet" in t["call"]["def"] for _, t in b.calls())]
     ctx.check(len(sorters) >= 1, "R17.6", "conjure-codegen/src/errors.rs", "generator|sorted", "the generator no longer sorts an error's safe argument names before emitting safe_args()", instance="generator sorts safe_args before emission")
 
+    # ---------------- R17.7 generator: the safe-argument name list holds wire names
+    # Error::service looks the serde (wire) key of each parameter up in ErrorType::safe_args(): the generated list must hold the
+    # IR field names themselves, not the Rust identifiers derived from them (serviceName vs service_name, type vs type_)
+    cg = ctx.F.crate("conjure_codegen")
+    tm = ctx.F.tmpl()
+    gens = []
+    if tm is not None:
+        for fn in tm["functions"]:
+            if fn["file"].endswith("conjure-codegen/src/errors.rs"):
+                for q in fn["quotes"]:
+                    mm = re.search(r"fn\s+safe_args\s*\(.*?\[\s*#\s*\(\s*#\s*(\w+)", q["text"], re.S)
+                    if mm:
+                        gens.append((fn["name"], mm.group(1)))
+    ctx.check(len(gens) == 1, "R17.7", "conjure-codegen/src/errors.rs", "safe-args-template|anchor", f"expected one template emitting `fn safe_args`, found {gens}", nontrivial=False)
+    for fname, var in gens:
+        gb = [x for x in cg.bodies if x.kind == "fn" and x.name == fname and x.id.startswith("conjure_codegen::errors::")]
+        if len(gb) != 1:
+            ctx.violation("R17.7", "conjure_codegen", f"{fname}|body", f"{fname}: body not found")
+            continue
+        gb = gb[0]
+        vec_locals = [k for k, l in enumerate(gb.d["locals"]) if l.get("n") == var and ty_adt(l.get("ty") or {}) == "alloc::vec::Vec"]
+
+        def element_chains(body, vec_op, depth=0):
+            """call chains (lists of callee defs) through which the elements stored into the vector pass"""
+            out = []
+            tr_ = Tracer(body, through_calls=True)
+            srcs = list(tr_.sources(vec_op))
+            # (a) closures of iterator adaptors feeding a collect()
+            for s_ in srcs:
+                if s_[0] == "agg":
+                    st = body.blocks[s_[1]]["s"][s_[2]]
+                    if st["r"].get("agg") == "closure":
+                        clo = cg.body(st["r"]["id"])
+                        if clo is not None:
+                            roots, calls = dt.transforming_calls(clo, {"cp": 0})
+                            out.append([t["call"]["def"] for t in calls] + [t2["call"]["def"] for t in calls for t2 in dt.transforming_calls(clo, t["args"][0])[1]] if calls else ["<no call>"])
+            # (b) pushes into the vector
+            vec_roots = set()
+            cur = place_local(op_place(vec_op)) if op_place(vec_op) is not None else None
+            hops = 0
+            while cur is not None and hops < 8:
+                hops += 1
+                vec_roots.add(cur)
+                d_ = dt.single_def(body, cur)
+                nxt = None
+                if d_ and d_[1] != "T" and "use" in d_[2]["r"] and op_place(d_[2]["r"]["use"]) is not None and not place_proj(op_place(d_[2]["r"]["use"])):
+                    nxt = place_local(op_place(d_[2]["r"]["use"]))
+                cur = nxt
+            for _, t in body.calls():
+                if t["call"]["name"] in ("push", "insert", "extend_from_slice") and "Vec" in t["call"]["def"] and any(c06.refers_to_local(body, t["args"][0], r_) for r_ in vec_roots):
+                    roots, calls = dt.transforming_calls(body, t["args"][-1])
+                    chain = [c_["call"]["def"] for c_ in calls]
+                    for c_ in calls:
+                        if c_["args"]:
+                            chain += [c2["call"]["def"] for c2 in dt.transforming_calls(body, c_["args"][0])[1]]
+                    out.append(chain or ["<no call>"])
+            # (c) a local helper returning the vector
+            for s_ in srcs:
+                if s_[0] == "call" and depth < 2:
+                    t = body.blocks[s_[1]]["t"]
+                    hb = cg.body(t["call"].get("id")) if t["call"].get("local") else None
+                    if hb is not None and hb.id.startswith("conjure_codegen::errors::"):
+                        out += element_chains(hb, {"cp": 0}, depth + 1)
+            return out
+        chains = []
+        for k in vec_locals:
+            chains += element_chains(gb, {"cp": k})
+        ok = bool(chains) and all(any(d.endswith("FieldDefinition::field_name") for d in ch) for ch in chains)
+        foreign = sorted({d for ch in chains for d in ch if not (d.endswith("FieldDefinition::field_name") or d in Tracer.TRANSPARENT or d.endswith("::as_str") or d.endswith("safe_args")
+                                                               or d.startswith("core::iter::") or d.startswith("core::slice::") or d == "<no call>" or d.startswith("core::option::"))})
+        ctx.check(ok and not foreign, "R17.7", gb.loc(), f"{fname}|safe-arg-names|wire",
+                  f"{fname}: the names emitted into `fn safe_args` are computed through {foreign or 'an unrecognised expression'}; they must be the IR field names (FieldDefinition::field_name().0) because Error::service compares them with the serialized (wire) keys — a converted identifier (service_name, type_) never matches and the parameter is filed as unsafe",
+                  instance=f"{fname}: safe_args = IR field names, sorted")
 
 def c_methods(crate, impl):
     return crate.methods_of_impl(impl)
